@@ -11,12 +11,11 @@
    Statements: coq/proofs/LibraryProofs.v (Section Statements), over the library
    state machine coq/model/Library.v, for every body type, fact type, condition
    semantics, map iteration order, and every operation history (no bound).
-   Full: unique names, build verdict / existing rule stays / stored as written,
-   removal from an instance, what can be evaluated-fired-fetched, removal from the
-   library at the level of the NAME (also across store+load), re-use of the name,
-   frame.  Refuted on the faithful model, with a partial theorem each:
-     D8   the removed RULE is in force again after store+load (tombstone without flag);
-     D10b a rejected resource is not rolled back (its new rules are added). *)
+   Full: unique names, build verdict / existing rule stays / stored as written, a rejected build changes nothing
+   (KnowledgeBase.Checkpoint, engine commit 4ed034e), removal from an instance, what can be
+   evaluated-fired-fetched, removal from the library at the level of the NAME (also across store+load), re-use of
+   the name, frame.  Refuted on the faithful model, with a partial theorem:
+     D8   the removed RULE is in force again after store+load (tombstone without flag). *)
 From Grule Require Import Base EngineGen EngineAbs Library LibraryProofs.
 
 Theorem C16_unique_names : forall B F holds self zap order, C16_unique_names_statement B F holds self zap order.
@@ -27,13 +26,9 @@ Theorem C16_build : forall B F holds self zap order, C16_build_statement B F hol
 Proof. exact C16_build_proved. Qed.
 Print Assumptions C16_build.
 
-Theorem C16_failed_build_unchanged_refuted : ~ failed_build_unchanged_statement.
-Proof. exact failed_build_unchanged_refuted. Qed.
-Print Assumptions C16_failed_build_unchanged_refuted.
-
-Theorem C16_failed_build_unchanged_partial : forall B F holds self zap order, C16_failed_build_unchanged_partial_statement B F holds self zap order.
-Proof. exact C16_failed_build_unchanged_partial_proved. Qed.
-Print Assumptions C16_failed_build_unchanged_partial.
+Theorem C16_failed_build_unchanged : forall B F holds self zap order, C16_failed_build_unchanged_statement B F holds self zap order.
+Proof. exact C16_failed_build_unchanged_proved. Qed.
+Print Assumptions C16_failed_build_unchanged.
 
 Theorem C16_removed_from_instance : forall B F holds self zap order, C16_removed_from_instance_statement B F holds self zap order.
 Proof. exact C16_removed_from_instance_proved. Qed.
